@@ -92,6 +92,12 @@ pub enum Event {
         ctr: u32,
         accepted: bool,
     },
+    /// Session `session_id` handed out message counter `ctr` for a new outgoing message
+    TxCtr {
+        session_id: u32,
+        local_sess_id: u16,
+        ctr: u32,
+    },
     /// The transport finished the synchronous handling of a received datagram
     Rx {
         peer: Address,
